@@ -336,19 +336,29 @@ class Aggregate(list):
         """
         cls = self.__class__
         root = ET.Element(cls.__name__)
-        do_list = True  # HACK
+        listtypes = (Types.ListAggregate, Types.ListElement)
+        spec = list(self.spec.items())
 
-        for attr, type_ in self.spec.items():
-            if isinstance(type_, (Types.ListAggregate, Types.ListElement)):
-                # HACK - the assumption here is that all list members
-                # occur immediately adjacent to each other in the class
-                # definition.  So when you encounter the first one, process
-                # all Aggregate contained sequence items, then don't do them
-                # again for subsequent list members.
-                if do_list:
-                    for member in self:
+        for index, (attr, type_) in enumerate(spec):
+            if isinstance(type_, listtypes):
+                # List members are written where their class attribute is defined.
+                # Adjacent list attributes form a group, whose members may be
+                # interleaved; the whole group is written (in sequence order) at
+                # the position of its first attribute.  A class may define more
+                # than one such group (e.g. TAX1099INT_V100).
+                if index > 0 and isinstance(spec[index - 1][1], listtypes):
+                    continue
+                group = []
+                for attr_, type__ in spec[index:]:
+                    if not isinstance(type__, listtypes):
+                        break
+                    group.append(attr_)
+                for member in self:
+                    if (
+                        not isinstance(member, Aggregate)
+                        or member.__class__.__name__.lower() in group
+                    ):
                         self._listAppend(root, member)
-                    do_list = False
             else:
                 value = getattr(self, attr)
                 if value is None:
